@@ -38,12 +38,15 @@ DECIDERS = {
               'CONST["caf\u00e9"]', 'CONST["\U0001F680"]', 'CONST["\u65e5\u672c"]',
               # literals whose text is not the shortest spelling of their number (percentages, leading zeros) - the chain is given as TEXT
               "CONST[1.50%]", "CONST[05%]", "CONST[60%]", "CONST[007]", "CONST[-05]", "CONST[00.5]", "CONST[1.50]",
+              # floats with more significant digits than any shortened formatting keeps
+              "CONST[3.14159265]", "CONST[1234567.5]", "CONST[19.99999]", "CONST[0.000012345678]", "CONST[-299792.458]", "CONST[0.1234567890123]",
               # decided by CONST although an ENUM is written first / next to it
               "ENUM[ACTIVE,ARCHIVED]∧CONST[ACTIVE]", "CONST[B]∧ENUM[A,B,C]", "ENUM[1,2,3]∧CONST[2]"],
     "ENUM": ["ENUM[A,B]", "ENUM[ACTIVE,ARCHIVED,DONE]", "ENUM[5,6]", "ENUM[1,10,100]", "ENUM[truecolor,indexed]", 'ENUM["a b",c]', "ENUM[A,AB,ABC]",
              "ENUM[falsey,nullable,vsx]", "ENUM[1.5,1.55]", "ENUM[x.y,a-b]", "ENUM[9223372036854775807,18446744073709551615]",
              "ENUM[12345678901234567890,12345678901234567891]", "ENUM[0,1]", "ENUM[true,false]",
              'ENUM["\U0001F680","\U0001F422"]', 'ENUM["\U0001D518x",ok]', 'ENUM["\u2713","\u00e9\u0301"]',
+             "ENUM[3.14159265,2.718281828]", "ENUM[1234567.5,1234567.25]", "ENUM[yes,no,null]",
              "ENUM[100.00%,05%,1.25%]", "ENUM[01,02,10]", "ENUM[007,08]"],
     "BOOLEAN": ["TYPE[BOOLEAN]"],
     "NUMBER": ["TYPE[NUMBER]"],
